@@ -5,7 +5,7 @@ import CpModel
 -/
 open Cp Cp.Drv
 
-def handlers : List (List String → Option String) := [primOp, tlsOp, enumOp, classOp, arrayOp, serialOp, textOp, dnsOp, sshOp]
+def handlers : List (List String → Option String) := [primOp, tlsOp, enumOp, classOp, arrayOp, serialOp, textOp, dnsOp, sshOp, fieldsOp, costOp]
 
 def dispatch (toks : List String) : String :=
   match handlers.findSome? (fun h => h toks) with
